@@ -5,6 +5,7 @@ import WrglModel.Spec.TableInv
 import WrglModel.Model.Encoding
 import WrglModel.Model.Time
 import WrglModel.Model.ObjStore
+import WrglModel.Model.Profile
 import WrglModel.Gen.Facts
 open Lean
 namespace Wrgl.Drv
@@ -102,8 +103,66 @@ def jStoreState (s : ObjStore) : Json :=
   let l := (s.map fun (k, v) => (bytesToHex k, bytesToHex v)).mergeSort (fun a b => decide (a.1 ≤ b.1))
   Json.arr (l.map fun (k, v) => Json.arr #[Json.str k, Json.str v]).toArray
 
+/-! table profile values (op "profileobj"); floats travel as the hex of their 8 bytes -/
+
+def optF64Of (j : Json) : Except String (Option Nat) :=
+  if j.isNull then return none else do return some (beNat (← asBytes j))
+
+def colProfileOf (j : Json) : Except String ColProfile := do
+  let pj := fldD j "percentiles" Json.null
+  let percentiles ← if pj.isNull then pure none else do
+    let l ← (← asArr pj).mapM asBytes
+    pure (some (l.map beNat))
+  let tj := fldD j "topValues" Json.null
+  let topValues ← if tj.isNull then pure none else do
+    let l ← (← asArr tj).mapM fun v => do
+      let value ← asBytes (← fld v "value")
+      let count ← natFld v "count"
+      pure (value, count)
+    pure (some l)
+  return { name := ← asBytes (← fld j "name"), naCount := ← natFld j "naCount",
+           min := ← optF64Of (fldD j "min" Json.null), max := ← optF64Of (fldD j "max" Json.null),
+           mean := ← optF64Of (fldD j "mean" Json.null), median := ← optF64Of (fldD j "median" Json.null),
+           stdDeviation := ← optF64Of (fldD j "stdDeviation" Json.null), percentiles := percentiles,
+           minStrLen := ← natFld j "minStrLen", maxStrLen := ← natFld j "maxStrLen", avgStrLen := ← natFld j "avgStrLen",
+           topValues := topValues }
+
+def profileObjOf (j : Json) : Except String ProfileObj := do
+  return { version := ← natFld j "version", rowsCount := ← natFld j "rowsCount",
+           columns := ← (← arrFld j "columns").mapM colProfileOf }
+
 def handleC06 (op : String) (input impl : Json) : Except String Json := do
   match op with
+  | "profileobj" =>
+    -- a profile value written, read back, re-encoded, stored and fetched; the writer against Model/Profile.lean
+    let pj ← fld input "profile"
+    let p ← profileObjOf pj
+    let m := profileBytes Facts.writeStringGuard p
+    let mj := jRes (fun b => Json.mkObj [("bytes", jBytes b)]) m
+    if resClass impl == "panic" then return reply mj false ["no-panic"]
+    let v := implVal impl
+    let nameFits := p.columns.all (fun c => decide (c.name.length ≤ 65535))
+    let viol : List String :=
+      if resClass impl == "ok" then
+        let bytesJ := (fldD v "bytes" Json.null).compress
+        -- a text that does not fit its 16-bit length prefix must have been refused (C06_profile_written_iff_texts_fit)
+        (if p.textsFit then []
+         else if !nameFits then ["profile-overlong-name-rejected-at-write"] else ["profile-overlong-top-value-rejected-at-write"]) ++
+        (if p.textsFit then
+          (if (fldD v "read" Json.null).compress == pj.compress then [] else ["profile-roundtrip"]) ++
+          (if (fldD v "reencoded" Json.null).compress == bytesJ then [] else ["profile-reencode"]) ++
+          (if (fldD v "stored" Json.null).compress == bytesJ && (fldD v "fromStore" Json.null).compress == pj.compress then []
+           else ["profile-reads-back-from-the-store"]) ++
+          (match m with
+           | .ok b => if (fldD v "n" Json.null).compress == (jNat b.length).compress then [] else ["profile-write-returns-its-byte-count"]
+           | _ => [])
+         else [])
+      else if p.textsFit then ["profile-that-fits-is-written"] else []
+    let agree := match m with
+      | .ok b => resClass impl == "ok" && (fldD v "bytes" Json.null).compress == (jBytes b).compress
+      | .err _ => resClass impl == "err"
+      | .panic _ => false
+    return reply mj agree viol
   | "strlist" =>
     let row ← asRow (fldD input "row" (Json.arr #[]))
     let m : Res Json := match strListEncode maxCell row with
